@@ -16,7 +16,12 @@ CONSTANTS
   EnableV2 = TRUE
   EnableForeign = TRUE
   EnableRc = TRUE
-  Strict = FALSE
+  Strict = TRUE
+INVARIANT HistoryIndependence
+INVARIANT NoDanglingState
+INVARIANT ReadsExpected
+INVARIANT V2InSync
+INVARIANT PipelineSp
 INVARIANT TypeOK
 POSTCONDITION Accepted
 CHECK_DEADLOCK FALSE
